@@ -192,6 +192,26 @@ def unflatten (H d : Nat) (x : List κ) : List (List κ) :=
 def bget {α : Type} (r : List α) (i : Nat) (dflt : α) : α :=
   if r.length = 1 then r.getD 0 dflt else r.getD i dflt
 
+/-! ### The sequence axis of the scores against the sequence axis of the values (audit E)
+
+`check_input` only asks that scores, mask and value be jointly BROADCASTABLE.  It therefore also accepts a
+call in which neither `key` nor `mask` has the full length at the sequence axis (size 1 there) while `value`
+has `T > 1` positions — not a documented shape (`key (B*, T, C*, K)`, `value (B*, T, C*, D)` share `T`).
+`forward` then takes the softmax over the scores' OWN axis (one entry: weight 1) and
+`a.unsqueeze(-1) * value` broadcasts that weight along the `T` values: the result is the SUM of the values,
+not their average.  `attend` (and `tensorApply` below, which reads the key through broadcasting and so
+normalises over `T` equal scores) does NOT describe the code there; `attendSeqB` does: the weights are taken
+over the positions the scores have and are then read through broadcasting (`bget`) along the positions of
+`value`.  With as many score positions as values it IS `attend` (`C20_seq_axis_carried`); the theorems
+about whole calls carry the guard `seqAxisCarried`. -/
+
+/-- `forward` for one broadcast element when the scores have `ks.length` positions and `value` has
+`vs.length`: `(a.unsqueeze(-1) * value).sum(dim)` with `a` broadcast along the sequence axis. -/
+def attendSeqB (th e : κ → κ) (fl : Flavour κ) (D : Nat) (q : List κ) (ks vs : List (List κ))
+    (mask : Option (List Bool)) : List κ :=
+  let ws := weights th e fl q ks mask
+  (List.range D).map (wsumCoord ((List.range vs.length).map (fun t => bget ws t 0)) vs)
+
 /-- The part of `forward` after the mask has been given its head axis: `hm h` is the mask
 seen by head `h` once torch has broadcast it against the `(…, T, …, H)` scores. -/
 def mhaCore (th e : κ → κ) (m : MHA κ) (q : List κ) (ks vs : List (List κ))
